@@ -15,7 +15,7 @@ XEPS = [("accessories", "GET"), ("characteristics", "GET"), ("characteristics-pu
 
 def pair_tokens(line, obs):
     """[(op, token)] for the ops of a case line that emit an observation"""
-    ops = [o for o in line.split(" ")[1:] if not (o.startswith("tbl=") or o.startswith("pin=") or o.startswith("nacc="))]
+    ops = [o for o in line.split(" ")[1:] if not (o.startswith("tbl=") or o.startswith("pin=") or o.startswith("nacc=") or o.startswith("fsz="))]
     em = [o for o in ops if o.split(":")[0] in EMITS]
     toks = sc.split_tokens(obs)
     return list(zip(em, toks)), len(em) == len(toks)
@@ -265,11 +265,16 @@ def gen_c04(rng, tier):
         big = "x" * rng.choice([10, 1500, 3000])
         jtok = "J" + json.dumps(big).encode().hex() + "~" + big.encode().hex()
         ops = ["N:a", "S:a:%s:ok" % ctrl, "ST", "N:b", "V:b:%s:ok" % ctrl, "A:b", "G:b:2.9,3.12", "P:b:4.13:%s:-" % jtok, "G:b:4.13", "TXT"]
-        mk(cases, "honest", ops, {"nacc": nacc, "ctrl": name.hex(), "big": big}, opts="pin=%s nacc=%d" % (pin, nacc))
+        mk(cases, "honest", ops, {"nacc": nacc, "ctrl": name.hex(), "big": big}, opts="pin=%s nacc=%d fsz=%d" % (pin, nacc, rng.choice([1024, 1024, 500, 100, 37])))
     for i in range(4 if tier == "quick" else 40):
         pin = valid_pin(rng)
         ops = ["N:a", "S:a:c0:wrongcode", "ST", "N:b", "S:b:c0:ok", "ST"]
         mk(cases, "wrongcode", ops, {}, opts="pin=%s nacc=0" % pin)
+    for i in range(4 if tier == "quick" else 40):
+        # a mistyped code, then the right one on the SAME connection (after at most one rejected start)
+        pin = valid_pin(rng)
+        ops = ["N:a", "S:a:c0:%s" % rng.choice(["wrongcode", "wrongproof", "m5flip"]), "S:a:c0:ok", "S:a:c0:ok", "ST", "V:a:c0:ok", "G:a:2.9"]
+        mk(cases, "retry", ops, {}, opts="pin=%s nacc=0" % pin)
     return cases
 
 
@@ -295,6 +300,12 @@ def oracle_c04(c, obs):
         else:
             if op == "S:a:c0:wrongcode" and tok != "S=st2/st4/err2[]":
                 return "a wrong setup code is not answered with authentication error 2: " + tok
+    if c["kind"] == "retry":
+        tries = [t for o, t in pairs if o == "S:a:c0:ok"]
+        if "S=st2/st4/st6[M2okM6ok]" not in tries:
+            return "after a failed attempt the controller cannot pair with the right setup code on the same connection: %s" % tries
+        if not dict(pairs).get("G:a:2.9", "").startswith("G=200"):
+            return "paired and verified controller is not served: %s" % dict(pairs).get("G:a:2.9", "")[:60]
     if c["kind"] == "wrongcode":
         sts = [t for o, t in pairs if o == "ST"]
         if sts != ["stored=", "stored=" + b"c0".hex()]:
@@ -346,7 +357,7 @@ def oracle_c09(c, obs):
     rows = sc.rows_for(c["line"])
     cur = {k: v["value"] for k, v in rows.items()}
     pairs, ok = pair_tokens(c["line"], obs)
-    ops = [o for o in c["line"].split(" ")[1:] if not (o.startswith("tbl=") or o.startswith("nacc=") or o.startswith("pin="))]
+    ops = [o for o in c["line"].split(" ")[1:] if not (o.startswith("tbl=") or o.startswith("nacc=") or o.startswith("pin=") or o.startswith("fsz="))]
     it = iter(pairs)
     lastwrite = None
     for op in ops:
@@ -434,7 +445,7 @@ def oracle_c11(c, obs):
         return "harness failure: " + obs[:100]
     rows = sc.rows_for(c["line"])
     pairs, ok = pair_tokens(c["line"], obs)
-    ops = [o for o in c["line"].split(" ")[1:] if not (o.startswith("tbl=") or o.startswith("nacc=") or o.startswith("pin="))]
+    ops = [o for o in c["line"].split(" ")[1:] if not (o.startswith("tbl=") or o.startswith("nacc=") or o.startswith("pin=") or o.startswith("fsz="))]
     it = iter(pairs)
     nowrite = set()
     evref = set()
@@ -533,7 +544,7 @@ def oracle_c10(c, obs):
     cur = {k: sc.canon_model_val(v["value"]) for k, v in rows.items()}
     subs, pending, alive = {}, {}, set()
     pairs, ok = pair_tokens(c["line"], obs)
-    ops = [o for o in c["line"].split(" ")[1:] if not (o.startswith("tbl=") or o.startswith("nacc=") or o.startswith("pin="))]
+    ops = [o for o in c["line"].split(" ")[1:] if not (o.startswith("tbl=") or o.startswith("nacc=") or o.startswith("pin=") or o.startswith("fsz="))]
     it = iter(pairs)
 
     def change(cid, vt, origin):
